@@ -321,6 +321,7 @@ class Check:
         self.extra: dict = {}
         self.assumptions: list[str] = []
         self.violations: list[dict] = []
+        self.observations: list[dict] = []
         self.known_hits: dict[str, int] = {}
         self.findings = [f for f in load_findings() if f["property"] == pid and f["kind"] == "finding"]
         self.tlc_runs: list[dict] = []
@@ -366,6 +367,11 @@ class Check:
         self.violations.append({"clause": clause, "signature": sig, "detail": detail})
         return True
 
+    def observe(self, clause: str, signature: dict, detail: dict):
+        """A disagreement on a clause that is OUTSIDE the listed property (specification growth): it is
+        written to the evidence and printed as OBSERVATION, never as a VIOLATION, and never fails the check."""
+        self.observations.append({"clause": clause, "signature": dict(signature), "detail": detail})
+
     def guard(self, clause, signature, fn, *a, **k):
         """Call gemseo; an exception raised by gemseo on an operation the spec allows is a violation."""
         try:
@@ -387,6 +393,9 @@ class Check:
                 "exhaustive": bool(self.exhaustive),
                 "tlc_runs": self.tlc_runs,
                 "known_findings_hit": self.known_hits,
+                "observations_outside_the_property": _jsonable(
+                    [dict(o["signature"], clause=o["clause"]) for o in self.observations[:50]]),
+                "n_observations_outside_the_property": len(self.observations),
                 "gemseo_imported_from": _gemseo_path(),
                 **_jsonable(self.extra),
             },
@@ -400,6 +409,12 @@ class Check:
         for f in self.findings:
             if self.known_hits.get(f["id"]):
                 print(f"KNOWN-FINDING: property={self.pid} {f['id']}: {f['what']} (hit {self.known_hits[f['id']]}x)")
+        seen_obs = set()
+        for o in self.observations:
+            key = json.dumps(_jsonable(dict(o["signature"], clause=o["clause"])), sort_keys=True, default=str)
+            if key not in seen_obs and len(seen_obs) < 10:
+                print(f"OBSERVATION (outside property {self.pid}, specification growth): {key[:300]}")
+            seen_obs.add(key)
         rc = 0
         if self.violations:
             rdir = Path(os.environ.get("VERIF_REPLAY_DIR") or VERIF / "replays")
